@@ -431,7 +431,7 @@ ABTI_ythread_atomic_get_joiner(ABTI_ythread *p_ythread)
         ABTI_VERIF_BEGIN();
         uint32_t req = ABTD_atomic_fetch_or_uint32(&p_ythread->thread.request,
                                                    ABTI_THREAD_REQ_JOIN);
-        ABTI_VERIF_END(ABTI_VEV_REQ_OR, &p_ythread->thread, ABTI_THREAD_REQ_JOIN, req);
+        ABTI_VERIF_END(ABTI_VEV_REQ_OR, &p_ythread->thread, ABTI_THREAD_REQ_JOIN | 0x100, req); /* 0x100: by the terminating side */
         if (!(req & ABTI_THREAD_REQ_JOIN)) {
             /* This case means there is no join request. */
             return NULL;
